@@ -21,6 +21,10 @@ ASM_MODEL = ["gen/Consts.v", "model/Bytes.v", "model/Errors.v", "model/Codec.v",
 NAV_MODEL = ["gen/Consts.v", "model/Bytes.v", "model/Errors.v", "model/CacheModel.v", "model/StateModel.v",
              "model/NavModel.v", "proofs/BytesProofs.v", "proofs/NavProofs.v", "corr/CorrBase.v", "corr/NavCorr.v"]
 
+PG_MODEL = ["gen/Consts.v", "model/Bytes.v", "model/Errors.v", "model/PgTx.v", "corr/CorrBase.v", "corr/PgCorr.v"]
+
+DB_MODEL = ["gen/Consts.v", "model/Bytes.v", "model/Errors.v", "model/DbKey.v", "model/DbModel.v", "corr/CorrBase.v", "corr/DbCorr.v"]
+
 PROPS = {
     "C09": {
         "prop_file": "props/C09.v",
@@ -111,5 +115,50 @@ PROPS = {
                         "no custom input validator registered (vm.RegisterInputValidator): valid_input_b models the default pattern only",
                         "State.Moves and State.lastMove are not part of StateModel and are not compared"],
         "widen_n": 1500,
+    },
+    "C13": {
+        "prop_file": "props/C13.v",
+        "files": ["proofs/BytesProofs.v", "proofs/CacheProofs.v", "proofs/PgProofs.v", "props/C13.v"],
+        "model_files": PG_MODEL,
+        "drivers": [{"name": "pg", "n_quick": 4000, "n_thorough": 40000}],
+        "rule": "universe = 3 key contexts (user data with session; translated TEMPLATE with language 'nor', empty store; the same with a pre-committed default-language row) x "
+                "every history over {Put a 1, Put a 2, Put b 1, Get a, Get b, Start, Stop, Abort} of length 1-4 (thorough: 1-5) x {no fault, every single fault position, every pair of "
+                "fault positions} (positions enumerated adaptively over the driver calls actually made); quick 735 007 / thorough 8 812 634 elements, of which every fault-free history of "
+                "length <= 2 and a seeded uniform sample (hx.Rng per block of 4096 indices) up to n*7/8 are run; n/8 adversarial histories of 3-12 operations incl. Close over 10 key contexts "
+                "(unknown prefix, locked type, empty session, empty language code, colliding keys a/a_nor, pre-committed rows) with fault density 0-40 %; 19 corpus cases first. Each on a fresh "
+                "pgDb + fakepg; per operation the result class/value, OpenTx, committed map and driver call log are compared with the model. Non-trivial = at least 2 operations; distinct by case term. "
+                "stats.universe_size / universe_selected / universe_covered_permille record the coverage.",
+        "assumptions": ["driver semantics are those of go/fakepg (stated at the top of fakepg.go and PgTx.v): read-committed + own writes, atomic Commit, a failing Commit/Rollback ends the transaction with nothing applied, a failing Next returns false",
+                        "single goroutine; Connect/ensureTable and Dump are not modelled; language only via SetLanguage (not via ctx.Value(\"Language\"))"],
+        "widen_n": 12000,
+    },
+    "C10": {
+        "prop_file": "props/C10.v",
+        "files": ["proofs/BytesProofs.v", "proofs/DbProofs.v", "props/C10.v"],
+        "model_files": DB_MODEL,
+        "drivers": [{"name": "db", "n_quick": 300, "n_thorough": 2000}],
+        "rule": "corpus of 16 fixed histories (one witness per finding class, odd prefixes, empty/dir/NUL names, locks and seal, languages) + n mostly-valid histories "
+                "(8-21 ops, thorough 8-47: Put/Get/SetPrefix/SetSession/SetLanguage/SetLock/Dump/VerifPaths over per-case pools of 5 symbol-grammar keys, 3 dot-free session ids, "
+                "the six documented types, languages {nil,eng,nor,swa}; 30 % of them with binary keys of 0-4 bytes) + n/4 adversarial histories over {a,b,.,_,/,P,@,0xFF}; "
+                "every history is run in lockstep on mem, fs text, fs binary-key (fresh /tmp/db-* directory each) and Postgres (fakepg); every result, the final directory "
+                "contents and the committed rows are compared with the model; the C10 monitor judges a backend only when the whole history lies in the property's quantifier; "
+                "non-trivial = at least 3 operations; distinct by full case term",
+        "assumptions": ["path.Join/Clean, os.Open/CreateTemp/Rename error classes, os.ReadDir order and base64.StdEncoding are modelled (DbModel.v) and exercised differentially only",
+                        "the Language value of the context.Context (second language source in ToKey) is not modelled; the harness passes a context without it",
+                        "Postgres is the in-process fake (fakepg); db/postgres/dump.go is not modelled (DSkip)",
+                        "error class Refused is recognised by the message 'unsafe put and safety set' (the code has no error type for it)"],
+        "widen_n": 600,
+    },
+    "C11": {
+        "prop_file": "props/C11.v",
+        "files": ["proofs/BytesProofs.v", "proofs/DbProofs.v", "props/C11.v"],
+        "model_files": DB_MODEL,
+        "drivers": [{"name": "db", "n_quick": 300, "n_thorough": 1200}],
+        "rule": "same corpus + n adversarial histories: 1-3 writers (type, session, key) with strings of length <= 3 over {a,b,.,_,/,P,@,0xFF}, 4-9 (thorough 6-19) readers derived from a writer "
+                "(dot moved, no session + whole storage key, '/../'+file name, legacy name as session/key, same triple, random), every writer reads back at the end; + n/3 mostly-valid histories; "
+                "+ exhaustive sweep: every writer against every reader with len(session)+len(key) <= 1 (thorough: <= 2, 418 writers x 836 reads) for STATE and USERDATA; "
+                "values are unique per Put so that the monitor can name the write a returned value came from",
+        "assumptions": ["same as C10", "operations whose file paths would leave the scratch root are dropped from the history before it is run (none was in the quick/thorough runs)"],
+        "widen_n": 600,
     },
 }
